@@ -340,3 +340,177 @@ def read_jobs(specs_mod, names, include_dir, prefix="", unroll=300, only_safety=
                          wrappers=[("view_" + n, read_wrapper(spec), "vlib.llvc.corpus:contract_read", dict(spec_ref="%s:%s" % (specs_mod, n)))],
                          prefix=prefix, unroll=unroll, only_safety=only_safety))
     return jobs
+
+
+# ---------------------------------------------------------------------------
+# C03: writes through virtual fields (alias / add-subtract transform)
+
+
+def vwrite_wrapper(spec, vname):
+    s = "  auto v = %s;\n  auto f = v.%s();\n  using VT = typename decltype(f)::ValueType;\n" % (make_view_expr(spec), vname)
+    s += "  VT cand = static_cast<VT>(a1);\n  O(4, (int64_t)cand);\n"
+    s += "  if (!v.has_%s().ValueOr(false)) return 2;\n" % vname
+    s += "  O(0, f.CouldWriteValue(cand));\n  bool ok = f.TryToWrite(cand);\n  if (ok && f.Ok()) O(2, (int64_t)f.Read());\n  return ok;"
+    return s
+
+
+def representable(ftype, nbytes, t):
+    w = 8 * nbytes
+    if ftype.kind == "UInt":
+        return z3.And(t >= 0, t <= bv((1 << w) - 1, 64)) if w < 64 else (t >= 0)
+    if ftype.kind == "Int":
+        return z3.And(t >= bv(-(1 << (w - 1)), 64), t <= bv((1 << (w - 1)) - 1, 64)) if w < 64 else z3.BoolVal(True)
+    raise ValueError(ftype.kind)
+
+
+def contract_vwrite(k, spec_ref, vname):
+    import importlib
+    mod, name = spec_ref.split(":")
+    spec = getattr(importlib.import_module(mod), name)
+    k.region("p", nonnull=False)
+    vf = [f for f in spec.fields if f.name == vname][0]
+    kind = vf.writable[0]
+    target_name = vf.writable[-1]
+    tf = [f for f in spec.fields if f.name == target_name][0]
+    inv = vf.writable[1] if kind == "transform" else (lambda v: v)
+    ref0 = eval_struct(spec, k.P0, k.n, k.p != 0, [k.a0, k.a1])
+    ref1 = eval_struct(spec, k.P1, k.n, k.p != 0, [k.a0, k.a1])
+    cand = M(True, k.outv(4))
+    stored = inv(cand)
+    vinfo, tinfo = ref0["fields"][vname], ref0["fields"][target_name]
+    present = z3.And(vinfo["has_known"], vinfo["has_value"])
+    k.requires(present)          # the wrapper returns early otherwise
+    cw = representable(tf.type, tf.size, stored.val)
+    if vf.requires:
+        cw = z3.And(cw, vf.requires(cand, ref0["fs"]).true())
+    # the target's bytes are present
+    tstart = M.lift(tf.start(ref0["fs"]) if callable(tf.start) else tf.start)
+    avail = z3.And(k.p != 0, tstart.known, z3.ULE(tstart.val, k.n), z3.ULE(bv(tf.size, 64), k.n - tstart.val))
+    succ = z3.And(cw, avail)
+    k.ensures("candidate-reported", k.outc(4))
+    k.ensures("CouldWriteValue", k.obs_flag(0, cw))
+    k.ensures("TryToWrite", (k.ret == 1) == succ)
+    k.ensures("stores-inverse", z3.Implies(succ, ref1["fields"][target_name]["value"] == stored.val))
+    k.ensures("read-back", k.obs_eq(2, succ, cand.val))
+    a = k.forall_off()
+    inside = z3.And(z3.ULE(tstart.val, a), z3.ULT(a - tstart.val, bv(tf.size, 64)))
+    same = z3.Select(k.P1, a) == z3.Select(k.P0, a)
+    k.ensures("byte-frame", z3.Implies(z3.And(z3.ULT(a, k.n), z3.Not(inside)), same))
+    k.ensures("fail-unchanged", z3.Implies(z3.And(z3.Not(succ), z3.ULT(a, k.n)), same))
+
+
+def vwrite_jobs(specs_mod, include_dir, prefix="", only_safety=False):
+    import importlib
+    mod = importlib.import_module(specs_mod)
+    jobs = []
+    for n, spec in mod.ALL.items():
+        for f in spec.fields:
+            if f.virtual and f.writable:
+                jobs.append(dict(tag="corpus_vwrite_%s_%s" % (n, f.name), includes=[spec.emb + ".h"], include_dirs=[include_dir], preamble="",
+                                 wrappers=[("vwrite_%s_%s" % (n, f.name), vwrite_wrapper(spec, f.name), "vlib.llvc.corpus:contract_vwrite",
+                                            dict(spec_ref="%s:%s" % (specs_mod, n), vname=f.name))],
+                                 prefix=prefix, unroll=300, only_safety=only_safety))
+    return jobs
+
+
+# ---------------------------------------------------------------------------
+# C20: Equals and TryToCopyFrom on two views of the same structure
+
+
+def equals_wrapper(spec):
+    s = "  auto a = %s;\n  auto b = %s;\n" % (make_view_expr(spec), make_view_expr(spec, "q", "m"))
+    s += "  O(0, a.Ok()); O(1, b.Ok());\n  if (a.Ok() && b.Ok()) { O(2, a.Equals(b)); O(3, b.Equals(a)); }\n  return 0;"
+    return s
+
+
+def copy_wrapper(spec, overlap=False):
+    if overlap:
+        # the second view lies in the SAME buffer, a0 bytes into it (memmove semantics)
+        s = "  auto a = %s;\n" % make_view_expr(spec, params=("a1", "a1"))
+        s += "  if (a0 > n || !p) return 2;\n  auto b = %s;\n" % make_view_expr(spec, "p + a0", "n - a0", params=("a1", "a1"))
+    else:
+        s = "  auto a = %s;\n  auto b = %s;\n" % (make_view_expr(spec), make_view_expr(spec, "q", "m"))
+    s += "  bool ok = a.TryToCopyFrom(b);\n  if (ok) { O(0, a.Ok()); O(1, a.Equals(b)); }\n  return ok;"
+    return s
+
+
+def fields_equal(spec, ra, rb):
+    """Logical equality of two reference evaluations: same presence, and equal values of every present
+    physical scalar field."""
+    cs = []
+    for f in spec.fields:
+        if f.virtual or f.type.kind == "Bytes":
+            continue
+        ia, ib = ra["fields"][f.name], rb["fields"][f.name]
+        pa, pb = z3.And(ia["has_known"], ia["has_value"]), z3.And(ib["has_known"], ib["has_value"])
+        cs.append(pa == pb)
+        cs.append(z3.Implies(z3.And(pa, pb), ia["value"] == ib["value"]))
+    return z3.And(cs)
+
+
+def _spec(spec_ref):
+    import importlib
+    mod, name = spec_ref.split(":")
+    return getattr(importlib.import_module(mod), name)
+
+
+def contract_equals(k, spec_ref):
+    spec = _spec(spec_ref)
+    k.region("p", nonnull=False)
+    k.region("q", nonnull=False)
+    ra = eval_struct(spec, k.P0, k.n, k.p != 0, [k.a0, k.a1])
+    rb = eval_struct(spec, k.Q0, k.m, k.q != 0, [k.a0, k.a1])
+    both = z3.And(ra["ok"], rb["ok"])
+    k.ensures("a.Ok", k.obs_flag(0, ra["ok"]))
+    k.ensures("b.Ok", k.obs_flag(1, rb["ok"]))
+    eq = fields_equal(spec, ra, rb)
+    k.ensures("Equals", z3.Implies(both, z3.And(k.outc(2), (k.outv(2) != 0) == eq)))
+    k.ensures("Equals-symmetric", z3.Implies(both, z3.And(k.outc(3), k.outv(3) == k.outv(2))))
+    a = k.forall_off()
+    k.ensures("read-only", z3.And(z3.Implies(z3.ULT(a, k.n), z3.Select(k.P1, a) == z3.Select(k.P0, a)),
+                                  z3.Implies(z3.ULT(a, k.m), z3.Select(k.Q1, a) == z3.Select(k.Q0, a))))
+
+
+def contract_copy(k, spec_ref):
+    spec = _spec(spec_ref)
+    k.region("p", nonnull=False)
+    k.region("q", nonnull=False)
+    rb = eval_struct(spec, k.Q0, k.m, k.q != 0, [k.a0, k.a1])
+    succ = z3.And(rb["ok"], k.p != 0, z3.UGE(k.n, rb["size"]))
+    k.ensures("TryToCopyFrom", (k.ret == 1) == succ)
+    a = k.forall_off()
+    k.ensures("copied-bytes", z3.Implies(z3.And(succ, z3.ULT(a, rb["size"])), z3.Select(k.P1, a) == z3.Select(k.Q0, a)))
+    k.ensures("bytes-past-size-untouched", z3.Implies(z3.And(z3.ULT(a, k.n), z3.Or(z3.Not(succ), z3.UGE(a, rb["size"]))),
+                                                      z3.Select(k.P1, a) == z3.Select(k.P0, a)))
+    k.ensures("source-untouched", z3.Implies(z3.ULT(a, k.m), z3.Select(k.Q1, a) == z3.Select(k.Q0, a)))
+    k.ensures("destination-Ok-and-Equals", z3.Implies(succ, z3.And(k.outc(0), k.outv(0) != 0, k.outc(1), k.outv(1) != 0)))
+
+
+def contract_copy_overlap(k, spec_ref):
+    """Both views in one buffer: b starts a0 bytes into a.  Overlap is handled like memmove: the bytes
+    copied are the source's PRE-state bytes."""
+    spec = _spec(spec_ref)
+    k.region("p", nonnull=True)       # the harness forms p + a0: a null base is excluded in the wrapper
+    k.requires(z3.ULE(k.a0, k.n))
+    rb = eval_struct(spec, k.P0, k.n - k.a0, k.p != 0, [k.a1, k.a1], base_off=k.a0)
+    succ = z3.And(rb["ok"], k.p != 0, z3.UGE(k.n, rb["size"]))
+    k.ensures("TryToCopyFrom", (k.ret == 1) == succ)
+    a = k.forall_off()
+    k.ensures("copied-bytes-memmove", z3.Implies(z3.And(succ, z3.ULT(a, rb["size"])), z3.Select(k.P1, a) == z3.Select(k.P0, k.a0 + a)))
+    k.ensures("bytes-past-size-untouched", z3.Implies(z3.And(z3.ULT(a, k.n), z3.Or(z3.Not(succ), z3.UGE(a, rb["size"]))),
+                                                      z3.Select(k.P1, a) == z3.Select(k.P0, a)))
+
+
+def c20_jobs(specs_mod, names, include_dir, prefix="", only_safety=False):
+    jobs = []
+    import importlib
+    mod = importlib.import_module(specs_mod)
+    for n in names:
+        spec = mod.ALL[n]
+        ws = [("equals_" + n, equals_wrapper(spec), "vlib.llvc.corpus:contract_equals", dict(spec_ref="%s:%s" % (specs_mod, n))),
+              ("copy_" + n, copy_wrapper(spec), "vlib.llvc.corpus:contract_copy", dict(spec_ref="%s:%s" % (specs_mod, n))),
+              ("copyoverlap_" + n, copy_wrapper(spec, True), "vlib.llvc.corpus:contract_copy_overlap", dict(spec_ref="%s:%s" % (specs_mod, n)))]
+        for w in ws:
+            jobs.append(dict(tag="corpus_c20_" + w[0], includes=[spec.emb + ".h"], include_dirs=[include_dir], preamble="",
+                             wrappers=[w], prefix=prefix, unroll=300, only_safety=only_safety))
+    return jobs
